@@ -5,6 +5,7 @@
   field value, every string/array length the wire can carry.
 -/
 import G9Proofs.Lemmas.WirePack
+import G9Proofs.Lemmas.WireRreadTag
 import G9Proofs.Lemmas.WireRread
 namespace G9.C01
 open G9 Go Spec
@@ -115,6 +116,28 @@ theorem rread_two_step (dotu : Bool) (c n : UInt32) (buf fill : Bytes)
     Go.setRreadCount (Go.fillData (Go.rreadBuf c buf) c.toNat fill) n =
       .ok (Spec.encode dotu NOTAG (.rread (fill.take n.toNat))) :=
   rread_two_step' dotu c n buf fill hfit hrep hn hfill
+
+/-- …and a tag set between the two steps stays: `InitRread c`, the data, `SetTag t`,
+    `SetRreadCount n` gives the protocol's Rread of the first `n` bytes under tag `t` —
+    `SetRreadCount` touches size, count and the end of the packet, nothing else. -/
+theorem rread_two_step_tagged (dotu : Bool) (c n : UInt32) (buf fill : Bytes) (t : UInt16)
+    (hfit : 11 + c.toNat ≤ buf.length) (hrep : 11 + c.toNat < 4294967296)
+    (hn : n.toNat ≤ c.toNat) (hfill : fill.length = c.toNat) :
+    Go.setRreadCount (Go.tagBuf (Go.fillData (Go.rreadBuf c buf) c.toNat fill) t) n =
+      .ok (Spec.encode dotu t (.rread (fill.take n.toNat))) := by
+  have h2 := (rread_two_step dotu c n buf fill hfit hrep hn hfill).2
+  have hnlt := n.toNat_lt
+  have hc := c.toNat_lt
+  have hsz : (4 + 1 + 2 + 4 + n : UInt32).toNat = 11 + n.toNat := by
+    have : (4 + 1 + 2 + 4 + n : UInt32) = 11 + n := by
+      apply UInt32.toNat_inj.mp; simp
+    rw [this, UInt32.toNat_add]; simp; omega
+  have hlen : 11 ≤ (Go.fillData (Go.rreadBuf c buf) c.toNat fill).length := by
+    unfold Go.fillData Go.rreadBuf
+    simp only [List.length_append, List.length_take, List.length_drop, p32_length, p16_length, p8, List.length_cons, List.length_nil]
+    omega
+  rw [setRreadCount_tagBuf _ t n hlen hsz, h2]
+  exact setTag_spec dotu NOTAG t _
 
 /-! ### non-vacuity: concrete, non-trivial messages satisfy `Rep` -/
 
